@@ -19,7 +19,7 @@ RULE = ("(machine) histories as for C01 biased to few price levels, equal times,
         "in price. (finite) all ordered pairs and id-distinct triples over kind x price{99,100,101} x placed_at{0,1,2} x "
         "id{0..3} per side, exhaustive: trichotomy, asymmetry, transitivity, agreement with the key, <=/>=/==/!= "
         "consistency; every pair/triple is non-trivial and distinct. (floats) Hypothesis triples with arbitrary positive "
-        "float prices. (permute) the same multiset of orders submitted in two arrival orders and cleared by one round: "
+        "float prices plus 0.0 / -0.0 / -1.0 (accepted by pams with a warning). (permute) the same multiset of orders submitted in two arrival orders and cleared by one round: "
         "filled volume per side and price level must agree.")
 ASSUMPTIONS = ["thorough tier adds a coverage-guided atheris campaign over byte-decoded histories (16 processes, half from an empty corpus); its saved decoded case, not the campaign, is the reproducible unit",
                "two accepted orders of one book never share an order id, so pairs with equal ids and different attributes are outside the domain"]
@@ -135,7 +135,8 @@ def finite_replay(case):
     return CaseInfo(nontrivial=True)
 
 
-PRICES = st.one_of(st.sampled_from([99.0, 100.0, 100.00000000000001, 5e-324, 1e308, 0.1, 0.30000000000000004]),
+# zero and negative limit prices are accepted by pams (with a warning): the operators must rank them like any other price
+PRICES = st.one_of(st.sampled_from([99.0, 100.0, 100.00000000000001, 5e-324, 1e308, 0.1, 0.30000000000000004, 0.0, -1.0, -0.0]),
                    st.floats(min_value=0.0, allow_nan=False, allow_infinity=False, exclude_min=True))
 
 
